@@ -25,7 +25,7 @@ from ..selftest import Mutant
 from . import kinds_driver
 
 PROP = "C06"
-TECHNIQUE = "static analysis: rank-domain abstract interpretation of the partial-run path + truth-table evaluation of the reduced-axis predicate + validation-dominance (CFG) + guard analysis of the selection flag"
+TECHNIQUE = "static analysis: rank-domain abstract interpretation of the partial-run path + truth-table evaluation of the reduced-axis predicate + validation-dominance (CFG) + guard analysis of the selection flag + one-shot iterator linearity (at most one consumer per path)"
 AD = "pipefunc.map.adaptive"
 PREP = "pipefunc.map._prepare"
 RUN = "pipefunc.map._run"
